@@ -132,6 +132,18 @@ def evalFrom (lookup : Env) : List Line → Map → POut
 
 def evalLines (lookup : Env) (ls : List Line) : POut := evalFrom lookup ls []
 
+/-- several files read in order (`GetEnvFromFile`): every file is evaluated against the caller's environment
+    first and the variables of the earlier files second (then its own earlier lines, by `evalLines`); its
+    variables replace those of earlier files; the first failing file stops the fold and the variables
+    accumulated before it are returned with the error -/
+def evalFilesFrom (cur : Env) : List (List Line) → Map → POut
+  | [], m => .ok m
+  | ls :: fs, m =>
+    match evalLines (envOf cur m) ls with
+    | .ok env => evalFilesFrom cur fs (mergeInto m env)
+    | .err e _ => .err e m
+    | .panic s => .panic s
+
 /-! ## well-formedness: the lines whose concrete syntax is unambiguous -/
 
 def nbAll (ws : Str) : Bool := ws.all isSpaceNB
